@@ -31,6 +31,7 @@ type Reader struct {
 	version     PDFVersion
 	objCache    map[int]core.Object        // Cache for loaded objects
 	objStmCache map[int]*core.ObjectStream // Cache for object streams
+	loading     map[int]bool               // Objects currently being loaded (detects reference cycles)
 	fileSize    int64
 	pageTree    *pages.PageTree // Cached page tree
 }
@@ -182,6 +183,17 @@ func (r *Reader) GetObject(objNum int) (core.Object, error) {
 	if !entry.InUse {
 		return nil, fmt.Errorf("object %d is not in use", objNum)
 	}
+
+	// Loading an object can require other objects (an indirect stream /Length,
+	// the object stream holding it). A damaged file can make that circular.
+	if r.loading[objNum] {
+		return nil, fmt.Errorf("circular reference while loading object %d", objNum)
+	}
+	if r.loading == nil {
+		r.loading = make(map[int]bool)
+	}
+	r.loading[objNum] = true
+	defer delete(r.loading, objNum)
 
 	var obj core.Object
 	var err error
